@@ -151,3 +151,118 @@ def rule_group_names(chk, idx, R, rid, pkg, module_filter=None, floor=1):
                         'string and the field it decodes is silently lost'
                         % (q, val, ('the %s resources' % lang) if lang else 'the package'), n.lineno)
     chk.control(rid, 'no_such_group_name' not in everything)
+
+
+# ---------------------------------------------------------------------------------------------------------------
+# index guards are tight
+
+def _split_const(e):
+    """expression -> (text of the non-constant part, integer offset); None when not base (+|-) int"""
+    if isinstance(e, ast.BinOp) and isinstance(e.op, (ast.Add, ast.Sub)):
+        if isinstance(e.right, ast.Constant) and isinstance(e.right.value, int) and not isinstance(e.right.value, bool):
+            b = _split_const(e.left)
+            if b:
+                return b[0], b[1] + (e.right.value if isinstance(e.op, ast.Add) else -e.right.value)
+        if isinstance(e.op, ast.Add) and isinstance(e.left, ast.Constant) and isinstance(e.left.value, int) \
+                and not isinstance(e.left.value, bool):
+            b = _split_const(e.right)
+            if b:
+                return b[0], b[1] + e.left.value
+    if isinstance(e, ast.Constant) and isinstance(e.value, int) and not isinstance(e.value, bool):
+        return '', e.value
+    return ast.unparse(e), 0
+
+
+def _len_side(e):
+    """`len(S) + c` -> (text of S, c)"""
+    sc = None
+    if isinstance(e, ast.BinOp) and isinstance(e.op, (ast.Add, ast.Sub)) and isinstance(e.right, ast.Constant) \
+            and isinstance(e.right.value, int):
+        inner = _len_side(e.left)
+        if inner:
+            return inner[0], inner[1] + (e.right.value if isinstance(e.op, ast.Add) else -e.right.value)
+    if isinstance(e, ast.Call) and isinstance(e.func, ast.Name) and e.func.id == 'len' and len(e.args) == 1:
+        return ast.unparse(e.args[0]), 0
+    return sc
+
+
+def index_guards(fn):
+    """yield (compare node, S, slack, [(subscript node, b0)]) for guards `base + a0 < len(S) + c` followed - in the same
+    `and` chain or in the body they guard - by subscripts S[base + b0]; slack = c - a0 + b0 (0 = tight)"""
+    for n in ast.walk(fn):
+        scopes = []
+        if isinstance(n, ast.BoolOp) and isinstance(n.op, ast.And):
+            for i, v in enumerate(n.values):
+                scopes.append((v, n.values[i + 1:]))
+        # only the short-circuit idiom `i < len(S) and ... S[i] ...` is judged: a bound in a loop header or an enclosing
+        # `if` is routinely stricter than the accesses below it for reasons of meaning (pairs, look-ahead), not bounds
+        for cmp_, rest in scopes:
+            if not (isinstance(cmp_, ast.Compare) and len(cmp_.ops) == 1):
+                continue
+            op = cmp_.ops[0]
+            l, r = cmp_.left, cmp_.comparators[0]
+            # normalise to  idx  <  len(S) + c
+            if isinstance(op, ast.Lt):
+                idx_e, len_e, adj = l, r, 0
+            elif isinstance(op, ast.LtE):
+                idx_e, len_e, adj = l, r, 1
+            elif isinstance(op, ast.Gt):
+                idx_e, len_e, adj = r, l, 0
+            elif isinstance(op, ast.GtE):
+                idx_e, len_e, adj = r, l, 1
+            else:
+                continue
+            ls = _len_side(len_e)
+            if not ls:
+                continue
+            S, c = ls
+            c += adj
+            base = _split_const(idx_e)
+            if base is None or base[0] == '':
+                continue
+            subs = []
+            for sc in rest:
+                for m in ast.walk(sc):
+                    if isinstance(m, ast.Subscript) and not isinstance(m.slice, ast.Slice) and ast.unparse(m.value) == S:
+                        b = _split_const(m.slice)
+                        if b and b[0] == base[0]:
+                            subs.append((m, b[1]))
+            if subs:
+                yield cmp_, S, [(m, c - base[1] + b0) for m, b0 in subs]
+
+
+def rule_index_guards(chk, idx, rid, mod_prefix, floor=1, exempt=None):
+    """a bound test `i < len(S) (+c)` that guards an access S[i (+d)] admits exactly the valid positions: looser lets an
+    IndexError happen (swallowed by the models - entities vanish), tighter silently skips the last position"""
+    chk.rule(rid, 'index guards admit exactly the valid positions of the sequence they protect', floor=floor, control=True)
+    for mod, cls, fn in idx.functions():
+        if not mod.name.startswith(mod_prefix) or '.resources.' in mod.name:
+            continue
+        q = (cls.name + '.' if cls else '') + fn.name
+        seen = {}
+        for cmp_, S, subs in index_guards(fn):
+            worst = max(subs, key=lambda x: x[1])       # the largest index reached decides
+            key = ast.unparse(cmp_)
+            seen[key] = seen.get(key, 0) + 1
+            if seen[key] > 1:
+                continue
+            construct = '%s: guard `%s` for %s[...]' % (q, key, S)
+            slack = worst[1]
+            if slack_of(subs) == 0:
+                chk.ok(rid, mod.path, construct, 'tight', cmp_.lineno)
+            elif exempt and (q, key) in exempt:
+                chk.exempt(rid, mod.path, construct, exempt[(q, key)], cmp_.lineno)
+            else:
+                chk.bad(rid, mod.path, construct, 'slack %+d for %s' % (slack, ast.unparse(worst[0])),
+                        '%s: the bound test `%s` does not match the access %s it guards: %s' % (
+                            q, key, ast.unparse(worst[0]),
+                            'the last valid position is never looked at, so what stands there (e.g. a closing bracket at the '
+                            'end of the input) is silently ignored' if slack < 0 else
+                            'an index one past the end can be read; the IndexError is swallowed by the model and entities vanish'),
+                        cmp_.lineno)
+    ctl = ast.parse('def f(source, m):\n    if m.end < len(source) - 1 and source[m.end] == ")":\n        return True\n').body[0]
+    chk.control(rid, any(slack_of(subs) != 0 for _, _, subs in index_guards(ctl)))
+
+
+def slack_of(subs):
+    return max(s for _, s in subs)
